@@ -94,9 +94,19 @@ func (p *Program) ipdom(b *ssa.BasicBlock) *ssa.BasicBlock {
 	return m[b]
 }
 
+// postDominates reports whether a is b or a strict post-dominator of b.
+func (p *Program) postDominates(a, b *ssa.BasicBlock) bool {
+	for x := b; x != nil; x = p.ipdom(x) {
+		if x == a {
+			return true
+		}
+	}
+	return false
+}
+
 // computeIpdom: iterative post-dominator sets on the reversed CFG with a
 // virtual exit joining all blocks without successors (Return, Panic) and, for
-// functions with infinite loops, every block (so that the relation is total).
+// functions with endless loops, one block per such loop (so that the relation is total).
 func computeIpdom(fn *ssa.Function) map[*ssa.BasicBlock]*ssa.BasicBlock {
 	n := len(fn.Blocks)
 	exit := n // virtual
@@ -127,9 +137,51 @@ func computeIpdom(fn *ssa.Function) map[*ssa.BasicBlock]*ssa.BasicBlock {
 			}
 		}
 	}
-	for i := 0; i < n; i++ {
-		if !reach[i] {
-			succ[i] = append(succ[i], exit)
+	// One block per endless loop is connected, not every block: with every block connected no block inside such
+	// a loop would have a post-dominator but the exit, and a branch in the loop body could not be joined before
+	// the next iteration (a worker loop `for { cmd := <-ch; if c { ...; continue }; ... }` would then reach its
+	// receive under the branch condition). The block chosen is a loop header (target of a back edge) where there
+	// is one, so that the arms of a branch in the body join at the header at the latest.
+	for {
+		pick := -1
+		for i := 0; i < n && pick < 0; i++ {
+			if reach[i] {
+				continue
+			}
+			for _, pr := range fn.Blocks[i].Preds {
+				if pr.Index >= i && !reach[pr.Index] {
+					pick = i // a back edge from inside the endless region ends here
+					break
+				}
+			}
+		}
+		if pick < 0 {
+			for i := 0; i < n; i++ {
+				if !reach[i] {
+					pick = i
+					break
+				}
+			}
+		}
+		if pick < 0 {
+			break
+		}
+		succ[pick] = append(succ[pick], exit)
+		reach[pick] = true
+		for changed := true; changed; {
+			changed = false
+			for i := 0; i < n; i++ {
+				if reach[i] {
+					continue
+				}
+				for _, s := range succ[i] {
+					if reach[s] {
+						reach[i] = true
+						changed = true
+						break
+					}
+				}
+			}
 		}
 	}
 	// pdom sets as bitsets
